@@ -273,6 +273,13 @@ def _check_sort(spec):
     op = spec["op"]
     with C.quiet():
         pdf = F.build_pdf(spec)
+        if op["op"] == "sort_values" and op.get("presort"):
+            # input already ordered by the leading key across the partitions, its missing values all in the last
+            # partition(s): the situation in which dask may skip the shuffle - but must not when na_position / the
+            # direction asks for the nulls (or the values) elsewhere
+            pdf = pdf.sort_values(op["by"][0], kind="stable", na_position="last")
+            pdf.index = pd.RangeIndex(len(pdf))
+            spec = dict(spec, index={"kind": "range"})
         if op["op"] == "set_index" and op["mode"] == "sorted":
             pdf = pdf.sort_values(op["col"], kind="stable")
             pdf.index = pd.RangeIndex(len(pdf))
@@ -369,6 +376,8 @@ def sort_case(draw):
         if draw(st.sampled_from(range(10))) < 3:
             # the first/last rows of the sorted collection instead of all of it (head/tail/nlargest have their own lowering)
             spec["op"]["then"] = _draw_then(draw, spec)
+        elif draw(st.sampled_from(range(4))) == 0:
+            spec["op"]["presort"] = True
         return spec
     # set_index: NaN-free key columns
     req_kinds = ("key", "int", "str", "datetime")
@@ -457,11 +466,33 @@ def dedup_case(draw):
     return spec
 
 
+def presorted_cases(tier):
+    """sort_values on input that is already ordered by the key across the partitions with its missing values in the last
+    partition(s) only: every combination of key kind x partition count x na_position x direction x shuffle method."""
+    import itertools
+
+    seeds = range(3) if tier == "quick" else range(10)
+    for kind, n, nap, asc, method, seed in itertools.product(["float", "Int64", "keyna"], [2, 3, 4], ["first", "last"], [True, False], ["tasks", "disk"], seeds):
+        key = {"kind": kind, "name": "k0", "nan": 0.25}
+        if kind == "keyna":
+            key["card"] = 4
+        yield {
+            "columns": [key, {"card": 2, "kind": "key", "name": "k1"}, {"kind": "int", "name": "c"}],
+            "index": {"kind": "range", "name": None},
+            "nrows": 9,
+            "seed": seed,
+            "partition": {"how": "npartitions", "n": n, "sort": False},
+            "op": {"op": "sort_values", "by": ["k0"], "ascending": [asc], "na_position": nap, "npartitions": None, "method": method, "presort": True},
+        }
+
+
 SUBCHECKS = [
     Sub("shuffle", check_shuffle, strategy=lambda tier: shuffle_case(), n={"quick": 700, "thorough": 15000}, nontrivial=nt_shuffle, classes=cls_common,
         doc="shuffle(on, npartitions, tasks|disk, max_branch): rows preserved, each key value in exactly one partition"),
     Sub("sort", check_sort, strategy=lambda tier: sort_case(), n={"quick": 700, "thorough": 15000}, nontrivial=nt_sort, classes=cls_common,
         doc="sort_values / set_index: globally ordered like pandas, same row multiset"),
+    Sub("presorted", check_sort, kind="enum", cases=presorted_cases, nontrivial=lambda spec: spec["partition"]["n"] >= 2, classes=cls_common, exhaustive=True,
+        doc="sort_values on presorted input with trailing nulls: key kind x npartitions x na_position x direction x method"),
     Sub("dedup", check_dedup, strategy=lambda tier: dedup_case(), n={"quick": 600, "thorough": 12000}, nontrivial=nt_dedup, classes=cls_common,
         doc="drop_duplicates / unique / nunique equal pandas as multisets"),
 ]
